@@ -84,6 +84,9 @@ func remoteCases() []remoteCase {
 		{"definitions/d/items", `{%s,"definitions":{"d":{"items":{"$ref":"r.json"}}},"allOf":[{"$ref":"#/definitions/d"}]}`},
 		{"additionalProperties", `{%s,"additionalProperties":{"$ref":"r.json"}}`},
 		{"fragment", `{%s,"properties":{"p":{"$ref":"r.json#/definitions/t"}}}`},
+		// the reference sits inside an embedded resource ($id of its own) of the draft-07 root
+		{"embedded resource", `{%s,"definitions":{"e":{"$id":"http://h/emb/e.json","allOf":[{"$ref":"../r.json"}]}},"allOf":[{"$ref":"#/definitions/e"}]}`},
+		{"embedded resource/properties", `{%s,"properties":{"p":{"$id":"http://h/e2.json","properties":{"p":{"$ref":"r.json"}},"items":{"$ref":"http://h/r.json"}}}}`},
 	}
 	for _, rootSchema := range []string{s07http, s07https} {
 		for _, rt := range roots {
@@ -123,7 +126,7 @@ func Run(r *ev.Run) {
 	pool := drive.StdPool()
 	r.Rule("(1) every document of G-schema/07 with the draft-07 $schema (http form; https form for every 5th) x instance pool vs R1 in draft-07 mode; " +
 		"(2) configuration axis: a pool of draft-sensitive schemas x $schema in {absent, 2020-12, draft-07 http, draft-07 https, draft-07 without '#', draft-04, 2019-09, 'x', 2020-12 with '#'}: supported values must give that draft's verdicts, unsupported ones must make Validate fail for every instance; " +
-		"(3) remote documents (with/without their own $schema, 1 and 2 hops, reached from the root object / allOf / properties / definitions/items / additionalProperties / with a pointer fragment) that need a draft-07 reading; (4) every sequence of <=3 Resolve calls (roots of both drafts and two bases, optionally with a transient Loader fault) through ONE caching Loader: each call must give the result it gives with a fresh Loader; non-trivial = R1 evaluated an applicable keyword (1,3) or the refusal was checked (2)")
+		"(3) remote documents (with/without their own $schema, 1 and 2 hops, reached from the root object / allOf / properties / definitions/items / additionalProperties / with a pointer fragment / from inside an embedded $id resource) that need a draft-07 reading; (4) every sequence of <=3 Resolve calls (roots of both drafts and two bases, optionally with a transient Loader fault) through ONE caching Loader: each call must give the result it gives with a fresh Loader; non-trivial = R1 evaluated an applicable keyword (1,3) or the refusal was checked (2)")
 	r.Assume("R1 implements draft-07 (validated on the 913 official draft-07 cases at start-up)",
 		"only draft-07 vocabulary is generated; remote documents never declare a different supported draft than the root")
 	if n, bad, err := ref.CheckSuite("/repo"); err != nil || len(bad) > 0 {
